@@ -6,6 +6,8 @@ open Mpt Mpt.Generated Mpt.Registry Mpt.RegSpec
 structure St where
   r : Reg := Registry.init
   s : RegSpec.State := []
+  /-- `static traits` of metatype::basic::pointer_traits() (C++ part) -/
+  basic : Option Named := none
 
 def sweepMax : Nat := 0x1100
 
@@ -118,7 +120,9 @@ def specNamed (s : RegSpec.State) (idOpt : Option Nat) : String :=
     | none => "none"
   | none => "none"
 
-def step (st : St) (w : List String) : St × String :=
+def bytesBasic : Name := [98, 97, 115, 105, 99]
+
+def stepT (st : St) (w : List String) : St × String :=
   match w with
   | ["t", "basic", sz] =>
     match sz.toNat? with
@@ -128,7 +132,7 @@ def step (st : St) (w : List String) : St × String :=
       | (r', .ok id) =>
         let d : Desc := { size := if size = 0 then 8 else size, init := false, fini := false }
         let fresh := !issuedBefore st.s id
-        ({ r := r', s := st.s ++ [{ kind := .basic, id := id, name := none, desc := d }] },
+        ({ st with r := r', s := st.s ++ [{ kind := .basic, id := id, name := none, desc := d }] },
           s!"R ok fresh={yn fresh} range={yn (inRangeK .basic id)} {fmtTraitsOpt (traits r' id)} | C id={id} | I - | S {alts}")
       | (_, .err e) => (st, s!"R refused | C - | I err={e.name} | S {alts}")
       | _ => (st, s!"R FAULT | C - | I - | S {alts}")
@@ -147,7 +151,7 @@ def step (st : St) (w : List String) : St × String :=
         match genericAdd st.r d with
         | (r', .ok id) =>
           let fresh := !issuedBefore st.s id
-          ({ r := r', s := st.s ++ [{ kind := .generic, id := id, name := none, desc := d }] },
+          ({ st with r := r', s := st.s ++ [{ kind := .generic, id := id, name := none, desc := d }] },
             s!"R ok fresh={yn fresh} range={yn (inRangeK .generic id)} {fmtTraitsOpt (traits r' id)} | C id={id} | I - | S {alts}")
         | (_, .err e) => (st, s!"R refused | C - | I err={e.name} | S {alts}")
         | _ => (st, s!"R FAULT | C - | I - | S {alts}")
@@ -163,7 +167,7 @@ def step (st : St) (w : List String) : St × String :=
         match res with
         | some e =>
           let fresh := !issuedBefore st.s e.id
-          ({ r := r', s := st.s ++ [{ kind := k, id := e.id, name := name, desc := ptrDesc }] },
+          ({ st with r := r', s := st.s ++ [{ kind := k, id := e.id, name := name, desc := ptrDesc }] },
             s!"R ok fresh={yn fresh} range={yn (inRangeK k e.id)} name={hexName e.name} {fmtTraits e.traits} | C id={e.id} | I - | S {alts}")
         | none => (st, s!"R refused | C - | I - | S {alts}")
       | none => (st, "bad-op")
@@ -267,6 +271,37 @@ def step (st : St) (w : List String) : St × String :=
     let l := s!"type_traits={TypeTab.traitsRecord} ptr={TypeTab.pointerSize} iovec={(abiSize "struct iovec").getD 0}"
     (st, s!"R {l} | C - | I - | S {l} ; *")
   | _ => (st, "bad-op")
+
+/-- ops of the C++ part (`tx ..`): the mpt::type_traits wrappers are the C functions; `metatype::basic::pointer_traits`
+    registers the metatype "basic" once (anonymously if the name is refused) and caches the entry -/
+def stepX (st : St) (w : List String) : St × String :=
+  match w with
+  | ["basicmeta"] =>
+    match st.basic with
+    | some e =>
+      let l := s!"ok fresh=same range=yes name={hexName e.name} {fmtTraits e.traits}"
+      (st, s!"R {l} | C id={e.id} | I - | S ok fresh=same range=yes name={hexName e.name} {fmtDesc ptrDesc} ; *")
+    | none =>
+      let (r1, res1) := metaAdd st.r (some bytesBasic)
+      let (r2, res2) := match res1 with
+        | some e => (r1, some e)
+        | none => metaAdd st.r none
+      let alts :=
+        if count st.s .mtype ≥ Kind.capacity .mtype then "refused ; *"
+        else s!"ok fresh=yes range=yes name={hexName (some bytesBasic)} {fmtDesc ptrDesc} ; * || ok fresh=yes range=yes name=null {fmtDesc ptrDesc} ; *"
+      match res2 with
+      | some e =>
+        let fresh := !issuedBefore st.s e.id
+        ({ st with r := r2, basic := some e, s := st.s ++ [{ kind := .mtype, id := e.id, name := e.name, desc := ptrDesc }] },
+          s!"R ok fresh={yn fresh} range={yn (inRangeK .mtype e.id)} name={hexName e.name} {fmtTraits e.traits} | C id={e.id} | I - | S {alts}")
+      | none => (st, s!"R refused | C - | I - | S {alts}")
+  | rest => stepT st ("t" :: rest)
+
+
+def step (st : St) (w : List String) : St × String :=
+  match w with
+  | "tx" :: rest => stepX st rest
+  | _ => stepT st w
 
 def main (_args : List String) : IO Unit := do
   Driver.loop (← IO.getStdin) (← IO.getStdout) step ({} : St)
